@@ -55,8 +55,10 @@ GapHist(ev) == LET g == Gaps(ev) IN
 (* Clauses for a logged "stats" line: line.obs, line.es = entries           *)
 (*   [fn, u, v, t, k ("rat" | "times" | "hist" | "exc"), val]               *)
 (***************************************************************************)
-StatEntryOK(O, e) ==
-  LET T == IdSet(O)
+StatEntryOKr(O, e, rem) ==
+  LET \* the instants the statistics range over: the snapshot ids - on a removal-enabled graph these are the inhabited
+      \* instants (C04), taken from the presence relation itself, so that an index polluted by an earlier query shows
+      T == IF rem THEN { x[3] : x \in Triples(O) } ELSE IdSet(O)
       \* presence at the snapshot ids (on a removal-enabled graph that is all of it; on an accumulative graph the
       \* interactions persist between the ids as well, and the statistics range over the snapshot ids)
       P == { x \in Triples(O) : x[3] \in T }
@@ -98,7 +100,9 @@ StatEntryOK(O, e) ==
     [] OTHER -> FALSE
 
 StatName(fn) == IF Len(fn) > 2 /\ SubSeq(fn, 1, 2) = "x_" THEN "X17_" \o SubSeq(fn, 3, Len(fn)) ELSE "C17_" \o fn
-StatsTable(O, es) ==
+StatEntryOK(O, e) == StatEntryOKr(O, e, FALSE)
+StatsTableR(O, es, rem) ==
   LET names == { es[i].fn : i \in DOMAIN es } IN
-  { <<StatName(nm), St(\A i \in { j \in DOMAIN es : es[j].fn = nm } : StatEntryOK(O, es[i]))>> : nm \in names }
+  { <<StatName(nm), St(\A i \in { j \in DOMAIN es : es[j].fn = nm } : StatEntryOKr(O, es[i], rem))>> : nm \in names }
+StatsTable(O, es) == StatsTableR(O, es, FALSE)
 =============================================================================
